@@ -27,9 +27,9 @@ CHECKS = {
  "C10": ("Hypothesis over operand pairs (Duration, Duration|timedelta|int|float), ties included; differential against the same operator on native timedelta twins",
          "Generated-input differential against the standard library.", "Trusts CPython timedelta arithmetic.", "4/C10"),
  "C11": ("Hypothesis over values/pairs x zones x folds; native-twin substitution oracle for every accessor and operator",
-         "Generated-input differential against native twins built with the same tzinfo object.", "Contradictory readings (same-zone pairs straddling a fold) are checked against the native behaviour only.", "4/C11"),
+         "Generated-input differential against native twins built with the same tzinfo object (aware) or the same fields and fold under a switched local zone (naive).", "Contradictory readings (same-zone pairs straddling a fold) are checked against the native behaviour only.", "4/C11"),
  "C12": ("Hypothesis over (zone, instant biased to skipped/repeated unit boundaries, provenance, unit, week config) + enumeration of transitions touching boundaries; oracle from local fields + pre-image oracle",
-         "Generated-input search; fully asserted where the unit boundary exists once, candidate-set oracle where it is skipped/repeated.", "Trusts zoneinfo/tzdata; known finding K-C12-1 (skipped/repeated unit boundary resolved by the instance's fold) is excluded by an input predicate plus the pinned value create(W, fold=x.fold); for 'week' the predicate covers the midnights the walk touches.", "4/C12 and 0.2"),
+         "Generated-input search; fully asserted where the unit boundary exists once, candidate-set oracle where it is skipped/repeated.", "Trusts zoneinfo/tzdata. Inside a repeated period second/minute/hour may stay in the value's own occurrence (pinned by the repository's tests); the former known finding K-C12-1 was repaired (205b322, a574970) and its predicate now reports a violation.", "4/C12 and 0.2"),
  "C13": ("Hypothesis over ISO duration component tuples/fractions and interval forms; exact rational oracle (fractions.Fraction); backend differential",
          "Generated-input search with exact rational oracle.", "Known fraction/overflow findings are excluded by input predicates.", "4/C13"),
  "C14": ("Hypothesis over values of every type x pickle protocols 0-5 x copy x deepcopy + enumeration of every overlap of every zone (both folds); observer-tuple equality oracle",
@@ -37,7 +37,7 @@ CHECKS = {
  "C15": ("Exhaustive enumeration of all years and all dates (thorough) against calendar/datetime stdlib + Python<->Rust differential; Hypothesis for local_time and for getters of one instant rendered in several zones",
          "Exhaustive over years and (thorough) all 3,652,059 dates; sampled for timestamps.", "Trusts CPython's calendar/datetime.", "4/C15"),
  "C16": ("Enumeration of every month shape x weekday x n plus Hypothesis over zones with skipped midnights; brute-force datetime.date oracle",
-         "Exhaustive over month shapes for Date/UTC, sampled for zones.", "Zone cases whose walk touches a skipped/repeated midnight are governed by known finding K-C12-1 (counted, result only required to be a valid local time); target days that do not exist in the zone are outside the asserted domain.", "4/C16 and 0.2"),
+         "Exhaustive over month shapes for Date/UTC, sampled for zones.", "Target days that do not exist in the zone (a whole day skipped) are outside the asserted domain; the former known finding K-C12-1 (walks touching a skipped/repeated midnight) was repaired and is asserted strictly.", "4/C16 and 0.2"),
  "C17": ("exhaustive single-character-edit enumeration of valid forms + grammar-plus-edits Hypothesis strategy over both backends and all options; exception bucketing by (type, innermost pendulum frame); atheris coverage-guided fuzzing of parse() with the same oracle in the target",
          "Exhaustive first ring (every single-character edit of 35 seed forms, ~107k strings) + Hypothesis grammar-plus-edits search (0-2 edits, foreign characters, long digit runs, all options) + coverage-guided fuzzing (atheris/libFuzzer, oracle inside the target); never proves absence beyond the enumerated ring.", "Strict clause checked through a necessary condition (ISO alphabet); every escape found on the pinned commit was repaired in /repo (fixed entries in known_findings.json); a libFuzzer campaign is only approximately reproducible - the saved input is the replay unit.", "4/C17 and 0.2"),
  "C18": ("Exhaustive product locales x units x counts x flags; phrase reconstructed independently from locale data; Hypothesis instant pairs for direction/magnitude",
